@@ -155,9 +155,20 @@ class ExtentAttribute:
 
       s = extent.split(" ")
 
-      (w, w_units) = utils.parse_length(s[0])
+      if len(s) != 2:
+        LOGGER.error("Syntax error in tts:extent on <tt>")
+        return None
 
-      (h, h_units) = utils.parse_length(s[1])
+      try:
+
+        (w, w_units) = utils.parse_length(s[0])
+
+        (h, h_units) = utils.parse_length(s[1])
+
+      except ValueError:
+
+        LOGGER.error("Syntax error in tts:extent on <tt>")
+        return None
 
       if w_units != "px" or h_units != "px":
         LOGGER.error("ttp:extent on <tt> does not use px units")
@@ -166,7 +177,14 @@ class ExtentAttribute:
       if not w.is_integer() or not h.is_integer():
         LOGGER.error("Pixel resolution dimensions must be integer values")
 
-      return model.PixelResolutionType(int(w), int(h))
+      try:
+
+        return model.PixelResolutionType(int(w), int(h))
+
+      except ValueError:
+
+        LOGGER.error("Pixel resolution dimensions must be larger than 0")
+        return None
 
     return None
 
@@ -193,24 +211,38 @@ class ActiveAreaAttribute:
         LOGGER.error("Syntax error in ittp:activeArea on <tt>")
         return None
 
-      (left_offset, left_offset_units) = utils.parse_length(s[0])
+      try:
 
-      (top_offset, top_offset_units) = utils.parse_length(s[1])
+        (left_offset, left_offset_units) = utils.parse_length(s[0])
 
-      (w, w_units) = utils.parse_length(s[2])
+        (top_offset, top_offset_units) = utils.parse_length(s[1])
 
-      (h, h_units) = utils.parse_length(s[3])
+        (w, w_units) = utils.parse_length(s[2])
+
+        (h, h_units) = utils.parse_length(s[3])
+
+      except ValueError:
+
+        LOGGER.error("Syntax error in ittp:activeArea on <tt>")
+        return None
 
       if w_units != "%" or h_units != "%" or left_offset_units != "%" or top_offset_units != "%":
         LOGGER.error("ittp:activeArea on <tt> must use % units")
         return None
 
-      return model.ActiveAreaType(
-        left_offset / 100,
-        top_offset / 100,
-        w / 100,
-        h / 100
-        )
+      try:
+
+        return model.ActiveAreaType(
+          left_offset / 100,
+          top_offset / 100,
+          w / 100,
+          h / 100
+          )
+
+      except ValueError:
+
+        LOGGER.error("ittp:activeArea on <tt> is outside of the root container")
+        return None
 
     return None
 
@@ -347,7 +379,7 @@ class FrameRateAttribute:
 
       m = FrameRateAttribute._FRAME_RATE_RE.match(fr_raw)
 
-      if m is not None:
+      if m is not None and int(m.group(1)) > 0:
 
         fr = Fraction(m.group(1))
 
